@@ -431,6 +431,12 @@ func (m *Master) Explore(roots []Task) (*Summary, error) {
 				// deepest-first keeps the queue small
 				t := queue[len(queue)-1]
 				queue = queue[:len(queue)-1]
+				if len(t.Prefix) > 0 && t.DeadlineUnix != 0 && time.Now().Unix() > t.DeadlineUnix {
+					// out of time: do not even start the subtree
+					// (every task costs at least one execution)
+					sum.Truncated = true
+					continue
+				}
 				inflight++
 				return t, true
 			}
